@@ -177,9 +177,48 @@ func c9Pairs(n int) (string, int) {
 	return "(vsum " + strings.Join(blocks, " ") + ")", leaves
 }
 
+// c9Ifs builds a program of about n nodes made of (if t x x) items (5 program
+// slots each: condition, if, branch, fi, branch) under vsum groups; the exact
+// slot count is read from DumpTable.
+func c9Ifs(n int) (string, int) {
+	leaves := 0
+	remain := n - 1
+	var blocks []string
+	for remain > 0 {
+		bsz := remain
+		if bsz > 501 {
+			bsz = 501
+		}
+		if bsz < 6 {
+			blocks = append(blocks, strings.Fields(rep1("x", bsz))...)
+			leaves += bsz
+			remain -= bsz
+			continue
+		}
+		in := bsz - 1
+		k, r := in/5, in%5
+		items := make([]string, 0, k+r)
+		for i := 0; i < k; i++ {
+			items = append(items, "(if t x x)")
+		}
+		for i := 0; i < r; i++ {
+			items = append(items, "x")
+		}
+		leaves += k + r
+		blocks = append(blocks, "(vsum "+strings.Join(items, " ")+")")
+		remain -= bsz
+	}
+	return "(vsum " + strings.Join(blocks, " ") + ")", leaves
+}
+
 type c9fetch struct{ x eval.Value }
 
-func (f c9fetch) Get(eval.VariableKey, string) (eval.Value, error) { return f.x, nil }
+func (f c9fetch) Get(_ eval.VariableKey, s string) (eval.Value, error) {
+	if s == "t" {
+		return true, nil
+	}
+	return f.x, nil
+}
 func (f c9fetch) Set(eval.VariableKey, string, eval.Value) error   { return nil }
 func (f c9fetch) Cached(eval.VariableKey, string) bool             { return true }
 
@@ -350,6 +389,13 @@ func c09(r *rep.Run) {
 	for n := 32755; n <= 32770; n++ {
 		njobs = append(njobs, njob{"pairs", n, -1})
 	}
+	// programs full of `if`: every if costs 5 program slots and 10 in event mode
+	for n := 16360; n <= 16400; n++ {
+		njobs = append(njobs, njob{"ifs", n, -2})
+	}
+	for n := 32755; n <= 32770; n++ {
+		njobs = append(njobs, njob{"ifs", n, -2})
+	}
 	optsN := []int{0, 15, 4, 2}
 	if r.Thorough() {
 		optsN = []int{0, 1, 2, 3, 4, 5, 6, 7, 8, 9, 10, 11, 12, 13, 14, 15}
@@ -363,14 +409,16 @@ func c09(r *rep.Run) {
 		if j.depth > 0 && j.n < 2*j.depth+8 {
 			return // the chain alone needs more nodes than this member has
 		}
-		if j.depth == -1 {
+		if j.depth == -2 {
+			src, leaves = c9Ifs(j.n)
+		} else if j.depth == -1 {
 			src, leaves = c9Pairs(j.n)
 		} else if j.depth == 0 {
 			src, leaves = c9Tree(j.n)
 		} else {
 			src, leaves = c9Deep(j.n, j.depth)
 		}
-		vars := []term.VarDecl{{Name: "x", Ty: I}}
+		vars := []term.VarDecl{{Name: "x", Ty: I}, {Name: "t", Ty: B}}
 		for _, b := range optsN {
 			r.Note(w, sprintf("%s n=%d optset %d", j.shape, j.n, b))
 			// event-free compile first: gives the real node and fast-operator counts
@@ -418,7 +466,7 @@ func c09(r *rep.Run) {
 					}
 					continue
 				}
-				if ev == 0 && size != j.n && b == 0 && j.depth != -1 {
+				if ev == 0 && size != j.n && b == 0 && j.depth >= 0 {
 					r.Violate("harness-node-count", "c9", sprintf("harness family %s claims %d nodes but DumpTable says %d", j.shape, j.n, size), d)
 				}
 				if limitSize > 32767 && (known || ev == 0) {
